@@ -604,7 +604,7 @@ pub fn gen_c08(rng: &mut Rng, tier: Tier) -> MsgScn {
     let mut creds = vec![to_cred(&base, 0)];
     let mut pres = vec![PresSpec::Direct { cred: 0, picks: (0..base.discs.len()).collect() }];
     let mut cases = Vec::new();
-    let mk_case = |b: Base, rng: &mut Rng| Case { base: b, faults: vec![], wire: vec![], fmt: rand_fmt(rng), session: None, resolver: Resolver::Directory, kb_enc: KbEnc::Absent, extra: vec![], expand: None, hold_s: 0, escapes: false, extra_raw: None, member_order: None, mirror: None, general: None };
+    let mk_case = |b: Base, rng: &mut Rng| Case { base: b, faults: vec![], wire: vec![], fmt: rand_fmt(rng), session: None, resolver: Resolver::Directory, kb_enc: KbEnc::Absent, extra: vec![], expand: None, hold_s: 0, escapes: false, extra_raw: None, member_order: None, mirror: None, general: None, traffic: None };
     cases.push(mk_case(Base::Pres(0), rng));
     // well-formed credential: every subset of its disclosures must give the algorithm's result
     let mut c = mk_case(Base::Cred(0), rng);
@@ -714,5 +714,7 @@ pub fn gen_c08(rng: &mut Rng, tier: Tier) -> MsgScn {
         pres.push(PresSpec::Direct { cred: ci, picks: (0..s.discs.len()).collect() });
         cases.push(mk_case(Base::Pres(pi), rng));
     }
+    let mut cases = cases;
+    crate::msg_gen::add_traffic(rng, &mut cases);
     MsgScn { kind: "msg".into(), check: "C08".into(), entropy_seed: rng.next_u64(), clock_base: now, issuers: iss, creds, pres, cases }
 }
